@@ -108,6 +108,18 @@ func verifAssert(c bool, msg string) {
 func verifKnown(id string, c bool) {}
 func verifReach(label string)     {}
 func verifNote(msg string)        {}
+func verifIteByte(c bool, a, b byte) byte {
+	if c {
+		return a
+	}
+	return b
+}
+func verifIteU64(c bool, a, b uint64) uint64 {
+	if c {
+		return a
+	}
+	return b
+}
 func verifMapOrder(on bool)       {}
 func verifRaceWatch(obj interface{}) {}
 func verifRaceBegin(tag string)   {}
